@@ -114,6 +114,15 @@ def _parse_call(message, fn):
 
 
 def check(spec):
+    if spec.get('engine') == 'smt':
+        # a direct SMT obligation: the function builds the query (from the current source) and returns the verdict
+        import vkopf
+        vkopf.set_cell(spec.get('cell') or {})
+        mod = importlib.import_module(spec['module'])
+        t0 = time.time()
+        res = getattr(mod, spec['fn'])(spec.get('cell') or {})
+        res.setdefault('wall_s', round(time.time() - t0, 2))
+        return res
     stats = _install_adjustments()
     import vkopf
     vkopf.set_cell(spec.get('cell') or {})
